@@ -565,16 +565,14 @@ def scale_check(c):
     cnt = {a: int((types == a).sum()) for a in range(1, K + 1)}
     exp = {"r": [(k + 0.5) * delta for k in range(maxbin)]}
     acc = {}
+    labels = [(a, b) for a in range(1, K + 1) for b in range(a, K + 1)] if 1 < K <= 5 else []
     for pos, _, _ in frames:
-        tot, _, margin = scale.pair_hist(pos, L, delta, maxbin)
+        tot, ws, margin = scale.pair_hists(pos, L, delta, maxbin, [((types == a).astype(float), (types == b).astype(float)) for a, b in labels])
         if margin < 1e-9:
             return ("skip", "margin")
         acc["gr"] = acc.get("gr", 0) + tot
-        if 1 < K <= 5:
-            for a in range(1, K + 1):
-                for b in range(a, K + 1):
-                    _, w, _ = scale.pair_hist(pos, L, delta, maxbin, (types == a).astype(float), (types == b).astype(float))
-                    acc[f"gr{a}{b}"] = acc.get(f"gr{a}{b}", 0) + w
+        for (a, b), w in zip(labels, ws):
+            acc[f"gr{a}{b}"] = acc.get(f"gr{a}{b}", 0) + w
     for col, h in acc.items():
         if col == "gr":
             na = nb = N
